@@ -290,13 +290,22 @@ Error CodeHolder::reinit() noexcept {
   }
   CodeHolder_add_text_section(this);
 
+  Error err = Error::kOk;
   BaseEmitter* emitter = _attached_first;
   while (emitter) {
-    emitter->on_reinit(*this);
-    emitter = emitter->_attached_next;
+    BaseEmitter* next = emitter->_attached_next;
+    Error emitter_err = emitter->on_reinit(*this);
+    if (ASMJIT_UNLIKELY(emitter_err != Error::kOk)) {
+      // An emitter that could not be reinitialized is not usable - detach it and report the failure.
+      (void)detach(emitter);
+      if (err == Error::kOk) {
+        err = emitter_err;
+      }
+    }
+    emitter = next;
   }
 
-  return Error::kOk;
+  return err;
 }
 
 void CodeHolder::reset(ResetPolicy reset_policy) noexcept {
